@@ -103,4 +103,22 @@ CHECKS = {
   "note": "Weakest property for this technique: the OS schedule is biased, not owned (DashMap's locks cannot be replaced by a controllable scheduler). Evidence reports how many schedules had two threads inside the same cache-miss window.",
   "ref": "DESIGN.md section 3 C14",
  },
+ "C17": {
+  "technique": "stateful model-based property testing (proptest): generated C API call sequences interpreted against the extern \"C\" functions and against a model of plain Rust operations, in child processes",
+  "level": "Generated sequences of 1-40 calls over a pool of handles; after every call the result, the failure sentinel + single error message, and a deep snapshot of every pooled handle are compared with the model. Aborts are attributed to the sequence in flight, confirmed alone and shrunk. Held on everything explored.",
+  "note": "Handles are chosen mostly kind-aware by the interpreter (a pure function of the op list and the state). Calls aliasing one handle as container and entry/result are skipped. make_tz_datetime may read its fields as UTC or local wall clock.",
+  "ref": "DESIGN.md section 3 C17",
+ },
+ "C18": {
+  "technique": "the C17 sequence generator executed under AddressSanitizer + LeakSanitizer in child processes (fault attribution by re-run, shrinking by call deletion), plus an exhaustive null-pointer sweep",
+  "level": "Any ASan report, any leak after the protocol-following teardown (LeakSanitizer check every 64 sequences, attributed by re-running the window) and any abort is a violation; every pointer parameter of every non-destroy function is tried as null (finite, exhaustive). Held on everything explored.",
+  "note": "Needs the nightly toolchain's -Zsanitizer=address (pre-installed); build adds ~1.5 min cold to setup. Filter handles have no destroy function in the API and are dropped by the harness.",
+  "ref": "DESIGN.md section 3 C18",
+ },
+ "C20": {
+  "technique": "model-based property testing (proptest) against a hand-written macro scanner and the documented precedence chain",
+  "level": "Generated records over the eight display tags, macro patterns over $ { } < > identifiers/spaces/non-ASCII and a partial localisation function; dis_macro, dict_to_dis and Dict::dis must equal the model; no panics. Held on everything explored.",
+  "note": "One-letter names after $ and Null-valued display tags are only checked for absence of panics (left open by the documentation / data model).",
+  "ref": "DESIGN.md section 3 C20",
+ },
 }
